@@ -131,6 +131,9 @@ func init() {
 	// what belongs to one script does not leak into the next (operation count, offset, early-return mark, separator)
 	addRule("C05", rule{name: "S-perscript", run: ruleSPerScript})
 	addRule("C05", rule{name: "T-splice", run: ruleTSplice})
+	addRule("C05", rule{name: "T-cond", run: ruleTCond})
+	addRule("C05", rule{name: "S-ops", run: ruleSOps})
+	addRule("C06", rule{name: "S-forkstrict", run: ruleSForkStrict})
 	addRule("C07", rule{name: "S-perscript", run: ruleSPerScript})
 	// "valid signatures over the signature hash of the script code": the two digest algorithms themselves (as in C02 / C03 / C04)
 	addRule("C06", rule{name: "W-sig", run: ruleWSig})
